@@ -167,7 +167,7 @@ def b_deck(ks, tree_free):
         tail = ch.choose('tail', [' imp:n=1', '  IMP:N=1', ' imp:n 1', ' imp:n=1 $ c', ' u=0 imp:n=1'])
         if text.endswith(')') and ch.choose('glue', [False, True]):
             tail = tail.lstrip()
-        mat = ch.choose('mat', ['0', '1 -2.7', '1 -2.7e0'])
+        mat = ch.choose('mat', ['0', '1 -2.7', '1 -2.7e0', '00', '+0', '000', '-0', '01 -2.7'])
         aux = (':', 2, -4)
         st.cells = ['1 %s %s%s' % (mat, text, tail),
                     '8 0 %s imp:n=1' % render_expr(aux),
@@ -176,7 +176,7 @@ def b_deck(ks, tree_free):
         st.imps = {1: 1, 8: 1, 9: 1}
         st.used = sorted(set(c01.used_surfaces([t, aux])))
         st.surfs = [c01.SURF_CARDS[s] for s in st.used]
-        if mat != '0':
+        if mat.lstrip('+-0'):
             st.data = ['m1 13027 1']
         return st
     return build
